@@ -133,11 +133,13 @@ public:
     pool_cv(const pool_cv &) = delete;
     pool_cv &operator=(const pool_cv &) = delete;
     void notify_one() noexcept {
+        pctl::after_wake();   // the condition variable of a destroyed pool must not be used
         long flagged = 0;
         for (auto &t : pctl::G.ths) flagged += t->cv_sleep && t->cv_flag;
         if (pctl::G.tokens + flagged < pctl::G.sleepers) pctl::G.tokens++;
     }
     void notify_all() noexcept {
+        pctl::after_wake();   // the condition variable of a destroyed pool must not be used
         pctl::G.tokens = 0;
         for (auto &t : pctl::G.ths)
             if (t->cv_sleep) t->cv_flag = true;
